@@ -151,7 +151,7 @@ class InterpreterAnalyzer(ASTTemplate):
         for child in node.children:
             if isinstance(child, (AST.Assignment, AST.PersistentAssignment)):
                 _verif.yield_point("dsout.set")
-                vtlengine.Exceptions.dataset_output = child.left.value  # type: ignore[attr-defined]
+                vtlengine.Exceptions.set_dataset_output(child.left.value)
             if not isinstance(
                 child,
                 (AST.HRuleset, AST.DPRuleset, AST.Operator, AST.ViralPropagationDef),
@@ -177,7 +177,7 @@ class InterpreterAnalyzer(ASTTemplate):
                         raise SemanticError("1-3-3-6", name=viral_comp.name)
 
             _verif.yield_point("dsout.clear")
-            vtlengine.Exceptions.dataset_output = None
+            vtlengine.Exceptions.set_dataset_output(None)
             self.datasets[result.name] = copy(result)
             results[result.name] = result
             if isinstance(result, Scalar):
